@@ -119,13 +119,16 @@ func (e *Engine) callFunction(st *State, fn *ssa.Function, args []Value, bind []
 		if _, isNo := v.(noResult); isNo {
 			return
 		}
-		if res != nil && st.status == Running && !isDefer {
-			if v == nil {
-				v = Tuple{}
+		if _, declined := v.(declineIntrinsic); !declined {
+			if res != nil && st.status == Running && !isDefer {
+				if v == nil {
+					v = Tuple{}
+				}
+				e.set(st, res, v)
 			}
-			e.set(st, res, v)
+			return
 		}
-		return
+		// the model does not apply to these arguments: execute the function from its source
 	}
 	if fn.Blocks == nil {
 		if e.tolerant {
